@@ -21,6 +21,9 @@ fn main() {
         eprintln!("       dlv astcheck [--seed N] [--random N] [--verbose]   (self-test of the shared AST codec)");
         std::process::exit(2);
     }
+    if args[1] == "semtest" {
+        std::process::exit(devtools::semtest(&args[2..]));
+    }
     if args[1] == "progtest" {
         std::process::exit(devtools::progtest(&args[2..]));
     }
